@@ -252,15 +252,6 @@ func cmdCheck(args []string) int {
 				ob.Res = Solve(script, 3, []int{0})
 				return
 			}
-			if atomic.LoadInt32(&nFailed) > 8 {
-				// the tree is already known to violate the property: do not spend the full budget on
-				// every further obligation
-				ob.Res = Solve(script, 5, []int{0, 3})
-				if ob.Res.Status != "unsat" {
-					atomic.AddInt32(&nFailed, 1)
-				}
-				return
-			}
 			ob.Res = Solve(script, timeout, nil)
 			if !ob.Cover && (ob.Res.Status == "timeout" || ob.Res.Status == "unknown") && atomic.LoadInt32(&nFailed) <= 3 {
 				// one retry with a longer budget before calling it a failure
